@@ -84,6 +84,11 @@ func RunE2E(o *drv.Out) {
 				"signed-for-other-chain":   func(q *lib.QuorumCertificate) { q.Header.ChainId++ },
 				"signed-for-other-network": func(q *lib.QuorumCertificate) { q.Header.NetworkId++ },
 				"signed-for-other-height":  func(q *lib.QuorumCertificate) { q.Header.Height++ },
+				// identifiers that agree with the node's in the low 32 bits only (ids are uint64 in the view,
+				// uint32 in block headers: a narrowing comparison would let these through)
+				"signed-for-network-high-bits": func(q *lib.QuorumCertificate) { q.Header.NetworkId += 1 << 32 },
+				"signed-for-chain-high-bits":   func(q *lib.QuorumCertificate) { q.Header.ChainId += 1 << 32 },
+				"signed-for-chain-bit-16":      func(q *lib.QuorumCertificate) { q.Header.ChainId += 1 << 16 },
 			}
 			pv := lib.Phase_PRECOMMIT_VOTE
 			variants := []variant{
@@ -111,6 +116,9 @@ func RunE2E(o *drv.Out) {
 				{"signed-for-other-chain", quorum(false), pv, nil},
 				{"signed-for-other-network", quorum(false), pv, nil},
 				{"signed-for-other-height", quorum(false), pv, nil},
+				{"signed-for-network-high-bits", quorum(false), pv, nil},
+				{"signed-for-chain-high-bits", quorum(false), pv, nil},
+				{"signed-for-chain-bit-16", quorum(false), pv, nil},
 				{"valid", quorum(false), pv, nil}, // last: commits
 			}
 			for _, v := range variants {
